@@ -222,16 +222,30 @@ pub fn finish(ctx: &Ctx, mut cov: Coverage, recheck: &dyn Fn(&Value) -> Vec<Stri
             "case": v.case,
             "occurrences_in_run": count,
         });
-        // deterministic replay: twice, same signature both times
+        let _ = &replay_doc;
+        // replay: twice, same signature both times. The library's own hash maps are seeded per instance,
+        // so a defect whose manifestation depends on their iteration order may need several replays; it is
+        // reported (marked order-dependent) if it reproduces at all, and is a machinery error only if it
+        // never does.
         let r1 = recheck(&v.case);
         let r2 = recheck(&v.case);
+        let mut order_dependent = false;
         if r1 != r2 || !r1.iter().any(|s| s == sig) {
-            eprintln!(
-                "MACHINERY-ERROR: property={} signature={} did not reproduce deterministically on replay (first={:?} second={:?})",
-                ctx.prop, sig, r1, r2
-            );
-            machinery_error = true;
-            continue;
+            let mut reproduced = r1.iter().any(|s| s == sig) || r2.iter().any(|s| s == sig);
+            let mut tries = 2;
+            while !reproduced && tries < 40 {
+                reproduced = recheck(&v.case).iter().any(|s| s == sig);
+                tries += 1;
+            }
+            if !reproduced {
+                eprintln!(
+                    "MACHINERY-ERROR: property={} signature={} did not reproduce on {} replays (first={:?} second={:?})",
+                    ctx.prop, sig, tries, r1, r2
+                );
+                machinery_error = true;
+                continue;
+            }
+            order_dependent = true;
         }
         let is_known = known.iter().any(|k| k.property == ctx.prop && k.status == "open" && &k.signature == sig);
         if is_known {
@@ -247,7 +261,7 @@ pub fn finish(ctx: &Ctx, mut cov: Coverage, recheck: &dyn Fn(&Value) -> Vec<Stri
                 Err(e) => eprintln!("cannot write replay {}: {e}", path.display()),
             }
             println!("VIOLATION property={} replay={}", ctx.prop, path.display());
-            println!("  signature: {sig}");
+            println!("  signature: {sig}{}", if order_dependent { "  [manifests depending on the library's hash-map iteration order: replay may need several attempts]" } else { "" });
             println!("  what: {}", v.what);
         }
         violation_summaries.push(json!({"signature": sig, "known": is_known, "occurrences": count, "what": v.what}));
@@ -424,9 +438,34 @@ pub fn permutations(n: usize) -> Vec<Vec<usize>> {
     out
 }
 
-/// Silence the default panic hook output for panics that are caught on purpose.
+thread_local! {
+    static PANIC_LOCATION: std::cell::RefCell<Option<String>> = const { std::cell::RefCell::new(None) };
+}
+
+/// Silence the default panic hook output for panics that are caught on purpose; the hook records the
+/// source location of the panic so that a caught panic can be reported with its call site.
 pub fn quiet_panics() {
-    std::panic::set_hook(Box::new(|_| {}));
+    std::panic::set_hook(Box::new(|info| {
+        let loc = info.location().map(|l| format!("{}:{}", l.file(), l.line())).unwrap_or_else(|| "?".into());
+        PANIC_LOCATION.with(|l| *l.borrow_mut() = Some(loc));
+    }));
+}
+
+/// Run `f`, converting a panic of the subject into Err((location, message)).
+pub fn guarded<T>(f: impl FnOnce() -> T) -> Result<T, (String, String)> {
+    PANIC_LOCATION.with(|l| *l.borrow_mut() = None);
+    match std::panic::catch_unwind(std::panic::AssertUnwindSafe(f)) {
+        Ok(v) => Ok(v),
+        Err(e) => {
+            let loc = PANIC_LOCATION.with(|l| l.borrow().clone()).unwrap_or_else(|| "?".into());
+            let loc = loc.replace("/repo/", "");
+            if loc.starts_with("/verif/") || loc.contains("harness/src/") {
+                eprintln!("MACHINERY-ERROR: the harness itself panicked at {loc}: {}", panic_message(&e));
+                std::process::exit(2);
+            }
+            Err((loc, panic_message(&e)))
+        }
+    }
 }
 
 pub fn panic_message(e: &Box<dyn std::any::Any + Send>) -> String {
